@@ -84,6 +84,7 @@ func (r *realStack) idle() time.Duration {
 func (r *realStack) serverConf() *quic.Config {
 	return &quic.Config{
 		MaxIdleTimeout:                 r.idle(),
+		MaxIncomingStreams:             int64(r.sc.maxStreams), // 0 = quic-go default
 		DisablePathMTUDiscovery:        true,
 		EnableDatagrams:                true,
 		MaxDatagramFrameSize:           hyMaxDatagramFrameSize,
